@@ -2,18 +2,27 @@
 
 package http2
 
-// Native demonstration for known finding K1 (C07): the serve loop writes the captured record
-// while handler goroutines read it, with no synchronisation. Run under the race detector:
-//   go test -race -tags verif -run TestVerifDemoC07 ./pkg/http2
-// The engine's counterexample (torn fingerprint) needs a particular interleaving; the race
-// detector reports the unsynchronised access pair itself.
+// Native demonstration for C07 (first written for known finding K1, now D13): driven by the
+// engine's counterexample model (GOSMT_MODEL), it plays the harness' connection history against
+// the REAL server over net.Pipe - the client's SETTINGS, an optional WINDOW_UPDATE, the request's
+// HEADERS - parks the request's handler, sends the model's later frames (SETTINGS, PRIORITY,
+// WINDOW_UPDATE, another request's HEADERS, RST_STREAM of the parked request), and
+//   (1) while those frames are being processed the handler keeps rendering its fingerprint: under
+//       the race detector (go test -race) an unsynchronised access pair is reported as a DATA RACE;
+//   (2) once the serve loop has processed all of them (PING acknowledged) the handler renders once
+//       more: the value must be the fingerprint of the frame history at ONE instant between its own
+//       HEADERS and now. Anything else prints REPLAY-VIOLATION.
+// Without a model it sends two SETTINGS and a PRIORITY frame.
 
 import (
 	"bytes"
 	"context"
+	"encoding/json"
 	"fmt"
 	"net"
 	"net/http"
+	"os"
+	"sync"
 	"testing"
 	"time"
 
@@ -23,62 +32,153 @@ import (
 
 func TestVerifDemoC07(t *testing.T) {
 	DebugGoroutines = false
+	model := map[string]uint64{}
+	if p := os.Getenv("GOSMT_MODEL"); p != "" {
+		if b, err := os.ReadFile(p); err == nil {
+			json.Unmarshal(b, &model)
+		}
+	} else {
+		model["later.kind[0]"], model["later.setting[0]"], model["later.kind[1]"], model["later.weight[1]"] = 0, 7, 1, 9
+	}
+	nLater := 0
+	for i := 0; i < 8; i++ {
+		if _, ok := model[fmt.Sprintf("later.kind[%d]", i)]; ok {
+			nLater = i + 1
+		}
+	}
+	if nLater == 0 {
+		nLater = 2 // unconstrained inputs do not appear in a model: kind 0 (SETTINGS), value 0
+	}
+
 	cli, srv := net.Pipe()
 	ctx, _ := metadata.NewContext(context.Background())
 	started := make(chan struct{})
-	done := make(chan struct{})
+	release := make(chan struct{})
+	done := make(chan string, 1)
+	var mu sync.Mutex
+	calls := 0
 	h := http.HandlerFunc(func(w http.ResponseWriter, r *http.Request) {
+		mu.Lock()
+		calls++
+		first := calls == 1
+		mu.Unlock()
+		if !first {
+			return // handlers of the later requests
+		}
 		// what a header injector does: the metadata comes from the request's context
 		md, ok := metadata.FromContext(r.Context())
 		if !ok {
 			fmt.Println("REPLAY-UNSUPPORTED request context carries no metadata")
+			close(started)
+			done <- ""
 			return
 		}
 		close(started)
-		deadline := time.Now().Add(300 * time.Millisecond)
 		n := 0
-		for time.Now().Before(deadline) {
-			n += len(md.HTTP2Frames.Marshal(^uint(0)))
+	spin:
+		for {
+			select {
+			case <-release:
+				break spin
+			default:
+				n += len(md.HTTP2Frames.Marshal(^uint(0)))
+			}
 		}
 		_ = n
-		close(done)
+		done <- md.HTTP2Frames.Marshal(^uint(0))
 	})
 	go (&Server{}).ServeConn(srv, &ServeConnOpts{Context: ctx, Handler: h})
 
-	go func() { // drain what the server writes
-		buf := make([]byte, 4096)
+	pingAck := make(chan struct{}, 4)
+	go func() { // read what the server writes; report PING acks
+		fr := NewFramer(nil, cli)
 		for {
-			if _, err := cli.Read(buf); err != nil {
+			f, err := fr.ReadFrame()
+			if err != nil {
 				return
+			}
+			if pf, ok := f.(*PingFrame); ok && pf.IsAck() {
+				pingAck <- struct{}{}
 			}
 		}
 	}()
 	fr := NewFramer(cli, nil)
-	cli.Write([]byte(ClientPreface))
-	fr.WriteSettings(Setting{ID: SettingInitialWindowSize, Val: 65535})
-	var hb bytes.Buffer
-	enc := hpack.NewEncoder(&hb)
-	for _, f := range []hpack.HeaderField{{Name: ":method", Value: "GET"}, {Name: ":scheme", Value: "https"}, {Name: ":authority", Value: "demo"}, {Name: ":path", Value: "/"}} {
-		enc.WriteField(f)
+	block := func(fields ...string) []byte {
+		var hb bytes.Buffer
+		enc := hpack.NewEncoder(&hb)
+		for i := 0; i+1 < len(fields); i += 2 {
+			enc.WriteField(hpack.HeaderField{Name: fields[i], Value: fields[i+1]})
+		}
+		return hb.Bytes()
 	}
-	fr.WriteHeaders(HeadersFrameParam{StreamID: 1, BlockFragment: hb.Bytes(), EndStream: true, EndHeaders: true})
+
+	// ---- the reference: the capture the property defines, instant by instant
+	var cur metadata.HTTP2FingerprintingFrames
+	var admissible []string
+	snap := func() { admissible = append(admissible, cur.Marshal(^uint(0))) }
+
+	cli.Write([]byte(ClientPreface))
+	fr.WriteSettings(Setting{ID: SettingMaxConcurrentStreams, Val: 100})
+	cur.Settings = []metadata.Setting{{Id: 3, Val: 100}}
+	if model["earlier.windowUpdate"] != 0 {
+		fr.WriteWindowUpdate(0, 15663105)
+		cur.WindowUpdateIncrement = 15663105
+	}
+	fr.WriteHeaders(HeadersFrameParam{StreamID: 1, BlockFragment: block(":method", "GET", ":path", "/", ":scheme", "https"),
+		EndStream: true, EndHeaders: true, Priority: PriorityParam{Weight: 200}})
+	cur.Priorities = append(cur.Priorities, metadata.Priority{StreamId: 1, Weight: 200})
+	cur.Headers = []metadata.HeaderField{{Name: ":method", Value: "GET"}, {Name: ":path", Value: "/"}, {Name: ":scheme", Value: "https"}}
+	snap()
 	select {
 	case <-started:
 	case <-time.After(5 * time.Second):
 		fmt.Println("REPLAY-UNSUPPORTED the handler did not start")
 		return
 	}
-	stop := time.After(250 * time.Millisecond)
-loop:
-	for i := uint32(0); ; i++ {
-		select {
-		case <-stop:
-			break loop
-		default:
+	for i := 0; i < nLater; i++ {
+		k := func(name string) uint64 { return model[fmt.Sprintf("%s[%d]", name, i)] }
+		switch k("later.kind") {
+		case 0:
+			val := uint32(i+1)<<8 | uint32(k("later.setting")&0xff)
+			fr.WriteSettings(Setting{ID: SettingInitialWindowSize, Val: val})
+			cur.Settings = []metadata.Setting{{Id: 4, Val: val}}
+		case 1:
+			w := uint8(k("later.weight"))
+			fr.WritePriority(uint32(3+2*i), PriorityParam{StreamDep: 0, Weight: w})
+			cur.Priorities = append(append([]metadata.Priority{}, cur.Priorities...), metadata.Priority{StreamId: uint32(3 + 2*i), Weight: w})
+		case 2:
+			inc := uint32(k("later.incr")&0xff) + 1
+			fr.WriteWindowUpdate(0, inc)
+			if cur.WindowUpdateIncrement == 0 {
+				cur.WindowUpdateIncrement = inc
+			}
+		case 3:
+			fr.WriteHeaders(HeadersFrameParam{StreamID: uint32(3 + 2*i), BlockFragment: block(":path", "/", ":method", "GET", ":scheme", "https"), EndStream: true, EndHeaders: true})
+			cur.Headers = []metadata.HeaderField{{Name: ":path", Value: "/"}, {Name: ":method", Value: "GET"}, {Name: ":scheme", Value: "https"}}
+		case 4:
+			fr.WriteRSTStream(1, ErrCodeCancel)
 		}
-		fr.WritePriority(3+2*(i%1000), PriorityParam{StreamDep: 0, Weight: uint8(i)})
+		snap()
 	}
-	<-done
+	fr.WritePing(false, [8]byte{7})
+	select {
+	case <-pingAck:
+	case <-time.After(5 * time.Second):
+		fmt.Println("REPLAY-UNSUPPORTED no PING acknowledgement")
+		return
+	}
+	close(release)
+	got := <-done
 	cli.Close()
-	fmt.Println("REPLAY-END (any data race is reported by the race detector)")
+	ok := false
+	for _, a := range admissible {
+		if a == got {
+			ok = true
+		}
+	}
+	if !ok {
+		fmt.Printf("handler rendered %q; fingerprints at the instants since its HEADERS: %q\n", got, admissible)
+		fmt.Println("REPLAY-VIOLATION tag=fingerprint-of-one-instant")
+	}
+	fmt.Println("REPLAY-END (a data race is reported by the race detector)")
 }
